@@ -251,6 +251,10 @@ def _range(it, fr, a, k):
 @builtin("enumerate")
 def _enumerate(it, fr, a, k):
     start = a[1] if len(a) > 1 else k.get("start", 0)
+    if isinstance(a[0], SymStream):
+        s0 = a[0]
+        return SymStream(s0.name, lambda it2, idx: (wrap_int(zint(start) + idx), s0.elem(it2, idx)), length=s0.length,
+                         on_exhaust=s0.on_exhaust, meta=dict(s0.meta, kind="generator"))
 
     def gen():
         i = start
